@@ -1390,3 +1390,14 @@ package zygo
 //@ func (UpdateInstr).Execute
 //@ C03 assert sets-its-symbol @before call LexicalLookupSymbol[0]: arg0 == env && arg1 == p.sym && arg2 != nil
 //@ C03 assert else-defines-its-symbol @before call LexicalBindSymbol[0]: arg0 == env && arg1 == p.sym
+
+// C13: the parser never acts on "no token yet". When the token stream runs dry inside a form
+// the parser pauses for more input (ParserPeekNextToken never returns the End token); a
+// decision taken on an End token would depend on where the text was cut.
+//@ func (*Parser).ParserPeekNextToken
+//@ C13 ensures never-the-end-token: err == nil ==> tok.typ != TokenEnd
+//@ callers C13 (*Lexer).PeekNextToken | (*Parser).ParserPeekNextToken, (*Parser).ParseList, (*Parser).ParseArray, (*Parser).ParseInfix, (*Parser).ParseBlockComment, (*Parser).ParseBacktickString, (*Lexer).GetNextToken
+//@ func (*Parser).ParseList
+//@ ghost afterElem := TokenEnd @entry
+//@ ghost afterElem := ret0.typ @after call PeekNextToken[1]
+//@ C13 assert no-decision-on-the-end-token @before call ParseList[0]: afterElem != TokenEnd
